@@ -66,6 +66,7 @@ type Scn struct {
 	History    []map[string]string `json:"history,omitempty"` // c10: parameter dictionaries of successive verifications on the SAME objects
 	Reps       int               `json:"reps,omitempty"`    // c10: repetitions of every verification
 	CertStep   int               `json:"cert_step,omitempty"` // c10: index+1 of the step that also authorises a certificate functionary
+	Permissive bool              `json:"permissive,omitempty"` // all artifact rules are ALLOW *: only the agreement of counted links can reject
 	Seed       uint64            `json:"seed"`
 }
 
@@ -150,6 +151,10 @@ func buildLayout(sc *Scn, runDirPrefix string) intoto.Layout {
 			s.ExpectedProducts = append(s.ExpectedProducts, []string{"DELETE", markerize("src/b.c", sc.Params)})
 		}
 		s.ExpectedProducts = append(s.ExpectedProducts, []string{"MATCH", "*", "WITH", "MATERIALS", "FROM", st.Name}, []string{"DISALLOW", "*"})
+		if sc.Permissive {
+			s.ExpectedMaterials = [][]string{{"ALLOW", "*"}}
+			s.ExpectedProducts = [][]string{{"ALLOW", "*"}}
+		}
 		if sc.CertStep == i+1 && certCtx != nil {
 			s.CertificateConstraints = []intoto.CertificateConstraint{{CommonName: "alice", Roots: []string{"*"},
 				DNSNames: []string{}, Emails: []string{}, Organizations: []string{}, URIs: []string{}}}
@@ -464,7 +469,8 @@ var defects = map[string][]string{
 		"dup-signature-missing-key", "keyid-collision-history"},
 	"c05": {"none", "disagree-product-digest", "disagree-product-path", "disagree-material-digest", "disagree-algorithm", "disagree-algorithm-material",
 		"junk-uncounted-badsig", "junk-uncounted-unauthorised", "extra-agreeing-link", "byproducts-differ",
-		"threshold1-disagree-product-digest", "threshold1-disagree-algorithm", "threshold1-agree"},
+		"threshold1-disagree-product-digest", "threshold1-disagree-algorithm", "threshold1-agree",
+		"permissive-disagree-algorithm", "permissive-disagree-algorithm-material", "permissive-disagree-product-digest", "permissive-none"},
 	"c06": {"none", "expired-long", "expired-2s", "future-1h", "garbage", "empty", "rfc3339-offset", "date-only", "year-9999", "fraction", "lowercase"},
 	"c08": {"sub-defective-beside-good-link", "sub-ok", "sub-ok", "sub-badsig", "sub-expired", "sub-missing-link", "sub-rule-violation", "sub-unauthorised", "sub-nested", "sub-nested-defect", "sub-summary-mismatch"},
 	"c10": {"history-same-params", "history-diff-params", "history-no-params", "history-mixed", "mixed-cert-key", "mixed-cert-key", "summary-byproducts", "direct-unclean"},
@@ -551,6 +557,12 @@ func genScenario(r *lib.Rng, focus string) *Scn {
 		i := r.Intn(len(sc.Steps))
 		needTwo(i)
 		sc.DefectArg = strconv.Itoa(i) + ":" + strconv.Itoa(r.Intn(2)) // step index : which of the two links is altered
+		if strings.HasPrefix(d, "permissive-") {
+			// no rule looks at hashes: the verdict depends on the agreement of the counted links alone
+			sc.Permissive = true
+			sc.Insps = nil
+			sc.ExpectLog = nil
+		}
 		if strings.HasPrefix(d, "threshold1-") {
 			// more counted links than the threshold requires: they must still all agree
 			sc.Steps[i].Threshold = 1
@@ -569,7 +581,7 @@ func genScenario(r *lib.Rng, focus string) *Scn {
 			}
 		}
 		switch d {
-		case "none", "junk-uncounted-badsig", "junk-uncounted-unauthorised", "extra-agreeing-link", "byproducts-differ", "threshold1-agree":
+		case "none", "junk-uncounted-badsig", "junk-uncounted-unauthorised", "extra-agreeing-link", "byproducts-differ", "threshold1-agree", "permissive-none":
 		default:
 			sc.Expect = "reject"
 		}
@@ -898,7 +910,7 @@ func applyLinkDefects(sc *Scn, w *world, r *lib.Rng) {
 		ks := lib.SortedKeys(m)
 		return ks[len(ks)-1]
 	}
-	switch strings.TrimPrefix(sc.Defect, "threshold1-") {
+	switch strings.TrimPrefix(strings.TrimPrefix(sc.Defect, "threshold1-"), "permissive-") {
 	case "disagree-product-digest":
 		resign(func(l *intoto.Link) { l.Products[anyKey(l.Products)] = hobj("something else") })
 	case "disagree-algorithm-material":
